@@ -392,4 +392,148 @@ Section NoBundles.
     - exact H.
     - simpl in *. split; [eapply NB; eauto | eapply DK; eauto].
   Qed.
+
+  (* ---------- a package sits in its directory under its own name ---------- *)
+  Definition keyed (tree : list tnode) : Prop :=
+    forall i n k c, nth_error tree i = Some n -> assoc k (t_children n) = Some c ->
+      exists cn, nth_error tree c = Some cn /\ t_pkg cn = k /\ t_parent cn = Some i.
+
+  Definition Jkey (st : state) (_ : list nat) (_ : option (nat * list req)) : Prop :=
+    no_bundled (s_tree st) /\ keyed (s_tree st).
+
+  Lemma keyed_prot_ext : forall t t', prot_ext t t' -> keyed t -> keyed t'.
+  Proof.
+    intros t t' PE K i n' k c Hn Hc. destruct (prot_ext_back _ _ _ _ PE Hn) as [n [H0 [_ [D _]]]].
+    rewrite D in Hc. destruct (K _ _ _ _ H0 Hc) as [cn [Hcn [Hp Hpar]]].
+    destruct PE as [_ E]. destruct (E _ _ Hcn) as [cn' [G1 [G2 _]]]. exists cn'. split; auto.
+    apply core_fields in G2. destruct G2 as [_ [_ [G3 [_ [G5 _]]]]]. split; congruence.
+  Qed.
+
+  Lemma no_bundled_prot_ext : forall t t', prot_ext t t' -> no_bundled t -> no_bundled t'.
+  Proof.
+    intros t t' PE NB i n Hn. destruct (prot_ext_back _ _ _ _ PE Hn) as [n0 [H0 [C _]]].
+    apply core_fields in C. destruct C as [_ [_ [_ [_ [_ [_ C7]]]]]]. rewrite C7. eapply NB; eauto.
+  Qed.
+
+  Lemma nth_app_single : forall {A} (l : list A) x i y, nth_error (l ++ [x]) i = Some y ->
+    (i < length l /\ nth_error l i = Some y) \/ (i = length l /\ y = x).
+  Proof.
+    intros A l x i y H. destruct (Nat.lt_ge_cases i (length l)) as [Hi|Hi].
+    - left. split; auto. rewrite nth_error_app1 in H; auto.
+    - right. rewrite nth_error_app2 in H; auto. destruct (i - length l) as [|j] eqn:E; simpl in H.
+      + inversion H. split; [lia | reflexivity].
+      + destruct j; discriminate.
+  Qed.
+
+  Lemma keyed_app_new : forall t node, keyed t -> t_children node = [] -> keyed (t ++ [node]).
+  Proof.
+    intros t node K Hc i n k c Hn Ha. apply nth_app_single in Hn. destruct Hn as [[Hi Hn]|[Hi Hn]].
+    - destruct (K _ _ _ _ Hn Ha) as [cn [H1 H2]]. exists cn. split; auto. apply nth_error_app_some. exact H1.
+    - subst n. rewrite Hc in Ha. discriminate.
+  Qed.
+
+  Lemma Jkey_step : forall ifuel st cur curn d insq st' insq' q a,
+    Jkey st q a -> nth_error (s_tree st) cur = Some curn ->
+    (forall i n p, nth_error (s_tree st) i = Some n -> t_parent n = Some p -> p < length (s_tree st)) ->
+    step_dep ifuel st cur d insq = Ok (st', insq') -> Jkey st' q a.
+  Proof.
+    intros ifuel st cur curn d insq st' insq' q a [NB K] Hcur Hpar H.
+    destruct (step_dep_nb _ _ _ _ _ _ _ _ NB Hcur H).
+    - apply mark_prot_ext in Hmark. split; [eapply no_bundled_prot_ext; eauto | eapply keyed_prot_ext; eauto].
+    - unfold Jkey. rewrite Htree. auto.
+    - destruct Hnode as [ver Hnode]. apply new_node_fields in Hnode. destruct Hnode as [F1 [F2 _]].
+      assert (NB1 : no_bundled (s_tree st ++ [node])).
+      { intros i n Hn. apply nth_app_single in Hn. destruct Hn as [[_ Hn]|[_ Hn]]; [eapply NB; eauto | subst; auto]. }
+      split; [eapply no_bundled_prot_ext; eauto | eapply keyed_prot_ext; [exact Htree | apply keyed_app_new; auto]].
+    - pose proof (new_node_fields _ _ Hnode) as [F1 [F2 [F3 [F4 [F5 [F6 [F7 [F8 F9]]]]]]]].
+      set (nid := length (s_tree st)) in *.
+      assert (NB1 : no_bundled (s_tree st ++ [node])).
+      { intros i n Hn. apply nth_app_single in Hn. destruct Hn as [[_ Hn]|[_ Hn]]; [eapply NB; eauto | subst; auto]. }
+      pose proof (hoist_prot_ext _ _ _ _ _ _ _ Hhoist) as PE.
+      assert (NB3 : no_bundled tree3) by (eapply no_bundled_prot_ext; eauto).
+      assert (K3 : keyed tree3) by (eapply keyed_prot_ext; [exact PE | apply keyed_app_new; auto]).
+      assert (Hn3 : exists n3, nth_error tree3 nid = Some n3 /\ t_pkg n3 = t_pkg node /\ t_children n3 = []).
+      { destruct PE as [_ E]. assert (Hx : nth_error (s_tree st ++ [node]) nid = Some node).
+        { rewrite nth_error_app2; [|unfold nid; lia]. unfold nid. rewrite Nat.sub_diag. reflexivity. }
+        destruct (E _ _ Hx) as [n3 [G1 [G2 [G3 _]]]]. exists n3. apply core_fields in G2.
+        destruct G2 as [_ [_ [G4 _]]]. repeat split; congruence. }
+      destruct Hn3 as [n3 [Hn3 [Pk3 Ch3]]].
+      assert (Hold3 : forall c cn, nth_error tree3 c = Some cn -> c < length tree3).
+      { intros c cn Hc. apply nth_error_Some. congruence. }
+      assert (L3 : length tree3 = S nid).
+      { destruct PE as [L _]. rewrite <- L, app_length. simpl. unfold nid. lia. }
+      assert (Hplt : parent < nid).
+      { eapply hoist_parent; [exact Hhoist | apply nth_error_Some; congruence |].
+        intros i n p Hi Hn Hp. apply nth_app_single in Hn. destruct Hn as [[_ Hn]|[Hn _]]; [|unfold nid in *; lia].
+        eapply Hpar; eauto. }
+      set (fin := fun n => set_id k (set_parent parent n)) in *.
+      set (addE := add_entry (r_alias d) (t_pkg node) nid) in *.
+      (* entries of tree3 never point to the new node *)
+      assert (Hnonid : forall i n kk c, nth_error tree3 i = Some n -> assoc kk (t_children n) = Some c -> c <> nid).
+      { intros i n kk c Hn Ha Ec. subst c. destruct (K3 _ _ _ _ Hn Ha) as [cn [H1 [_ H3]]].
+        rewrite Hn3 in H1. inversion H1; subst cn.
+        destruct PE as [_ E]. assert (Hx : nth_error (s_tree st ++ [node]) nid = Some node).
+        { rewrite nth_error_app2; [|unfold nid; lia]. unfold nid. rewrite Nat.sub_diag. reflexivity. }
+        destruct (E _ _ Hx) as [n3' [G1 [G2 _]]]. rewrite Hn3 in G1. inversion G1; subst n3'.
+        apply core_fields in G2. destruct G2 as [_ [_ [_ [_ [G5 _]]]]]. congruence. }
+      unfold Jkey. rewrite Htree. fold nid. fold fin. fold addE. split.
+      + intros i n Hn. apply nth_upd in Hn. destruct Hn as [m [Hmx [[E1 E2]|[E1 E2]]]]; subst;
+          apply nth_upd in Hmx; destruct Hmx as [m0 [Hm0 [[E3 E4]|[E3 E4]]]]; subst; simpl;
+          try (unfold addE, add_entry; destruct (r_alias d); simpl); eapply NB3; eauto.
+      + intros i n kk c Hn Ha.
+        (* the node at c in the final tree *)
+        assert (Hfinal : forall c0 cn0, nth_error tree3 c0 = Some cn0 -> c0 <> nid ->
+                  exists cn', nth_error (upd nid fin (upd parent addE tree3)) c0 = Some cn' /\
+                              t_pkg cn' = t_pkg cn0 /\ t_parent cn' = t_parent cn0).
+        { intros c0 cn0 Hc0 Hne. rewrite nth_upd_other; auto. destruct (Nat.eq_dec parent c0) as [Ep|Ep].
+          - subst c0. rewrite nth_upd_same, Hc0. simpl. exists (addE cn0). split; auto.
+            unfold addE, add_entry. destruct (r_alias d); simpl; auto.
+          - rewrite nth_upd_other; auto. eauto. }
+        apply nth_upd in Hn. destruct Hn as [m [Hmx [[E1 E2]|[E1 E2]]]]; subst.
+        * (* the new node has no children *)
+          apply nth_upd in Hmx. destruct Hmx as [m0 [Hm0 [[E3 E4]|[E3 E4]]]]; subst.
+          -- exfalso. lia.
+          -- rewrite Hn3 in Hm0. inversion Hm0; subst m0. unfold fin in Ha. simpl in Ha. rewrite Ch3 in Ha. discriminate.
+        * apply nth_upd in Hmx. destruct Hmx as [m0 [Hm0 [[E3 E4]|[E3 E4]]]]; subst.
+          -- (* the directory that received the entry *)
+             unfold addE, add_entry in Ha. destruct (r_alias d) eqn:Eal.
+             ++ simpl in Ha. apply assoc_set_some in Ha. destruct Ha as [[Ek Ec]|[Ek Ha]].
+                ** subst kk c. exists (fin n3). split; [rewrite nth_upd_same, nth_upd_other; auto; rewrite Hn3; reflexivity|].
+                   unfold fin. simpl. split; auto.
+                ** destruct (K3 _ _ _ _ Hm0 Ha) as [cn [H1 [H2 H3]]].
+                   destruct (Hfinal _ _ H1 (Hnonid _ _ _ _ Hm0 Ha)) as [cn' [G1 [G2 G3]]]. exists cn'. split; auto. split; congruence.
+             ++ simpl in Ha. destruct (K3 _ _ _ _ Hm0 Ha) as [cn [H1 [H2 H3]]].
+                destruct (Hfinal _ _ H1 (Hnonid _ _ _ _ Hm0 Ha)) as [cn' [G1 [G2 G3]]]. exists cn'. split; auto. split; congruence.
+          -- destruct (K3 _ _ _ _ Hm0 Ha) as [cn [H1 [H2 H3]]].
+             destruct (Hfinal _ _ H1 (Hnonid _ _ _ _ Hm0 Ha)) as [cn' [G1 [G2 G3]]]. exists cn'. split; auto. split; congruence.
+  Qed.
+
+  Theorem child_keys : forall fuel root r, resolve fuel root = Ok r ->
+    forall i n k c, nth_error (r_tree r) i = Some n -> assoc k (t_children n) = Some c ->
+      exists cn, nth_error (r_tree r) c = Some cn /\ t_pkg cn = k /\ t_parent cn = Some i.
+  Proof.
+    intros fuel root r H.
+    destruct (resolve_inv_J c_version c_requirements c_matching sem_match Jkey root fuel) with (r := r)
+      as [v [Hv [I [P [NB K]]]]].
+    - intros st cur q curn HJ _ _. exact HJ.
+    - intros rvk st cur q curn _ _ [NB K] Hcur _. split; simpl.
+      + intros j m Hm. apply nth_upd in Hm. destruct Hm as [m0 [Hm0 [[E1 E2]|[E1 E2]]]]; subst; simpl; eapply NB; eauto.
+      + intros j m kk c Hm Ha. apply nth_upd in Hm.
+        assert (Ha0 : exists m0, nth_error (s_tree st) j = Some m0 /\ assoc kk (t_children m0) = Some c).
+        { destruct Hm as [m0 [Hm0 [[E1 E2]|[E1 E2]]]]; subst; eauto. }
+        destruct Ha0 as [m0 [Hm0 Ha0]]. destruct (K _ _ _ _ Hm0 Ha0) as [cn [H1 [H2 H3]]].
+        destruct (Nat.eq_dec cur c) as [E|E].
+        * subst c. exists (set_processed cn). rewrite nth_upd_same, H1. simpl. auto.
+        * exists cn. rewrite nth_upd_other; auto.
+    - intros rvk st cur curn d done rest insq q st' insq' I0 _ HJ Hcur _ _ Hs. eapply Jkey_step; eauto.
+      exact (parents_in_range _ _ _ _ _ _ I0).
+    - intros st cur q curn HJ _. exact HJ.
+    - intros v rootn tree Hv Hroot Hinj. apply inject_nb in Hinj. subst tree.
+      apply new_node_fields in Hroot. destruct Hroot as [F1 [F2 _]]. split; simpl.
+      + intros j m Hm. destruct j; simpl in Hm; [inversion Hm; subst; simpl; auto | destruct j; discriminate].
+      + intros j m kk c Hm Ha. destruct j; simpl in Hm; [|destruct j; discriminate]. inversion Hm; subst.
+        simpl in Ha. rewrite F2 in Ha. discriminate.
+    - exact H.
+    - exact K.
+  Qed.
 End NoBundles.
